@@ -93,6 +93,9 @@ class Packets:
     def print_line(self, text="x"):
         return self.enc("packets::PrintLine", attribute=0, text=text)
 
+    def print_text_block(self, lines=("receipt", "line 2")):
+        return self.enc("packets::PrintTextBlock", tlv={"receipt_type": 1, "lines": {"lines": list(lines), "eol": None}})
+
 
 ACK = bytes([0x80, 0, 0])
 
@@ -169,6 +172,9 @@ class Abs:
         self.exch_start = []      # indices in tx where an exchange (command) starts
         self.tserial = tserial if tserial is not None else cfg["serial"]
         self.ttid = ttid if ttid is not None else cfg["tid"]
+        # an empty configured terminal id is replaced by 00000000 when the client is created (stream.rs)
+        if not cfg["tid"]:
+            self.cfg = dict(cfg, tid="00000000")
 
     # -- terminal side
     def replies(self, kind):
